@@ -56,7 +56,7 @@ pub enum RedisCase {
     NodeRoundTrip { node: NodeCase, from_redis: bool },
     SerdePool { pool: PoolCase, omit_timeouts: bool, omit_queue_mode: bool, env_style: bool },
     SerdeConfig { with_pool: Option<PoolCase>, flavour: u8 },
-    Listeners { sentinel: bool, named: u8, via_urls: bool },
+    Listeners { sentinel: bool, named: u16, via_urls: bool },
 }
 
 fn dp_addr(a: &AddrCase) -> dr::ConnectionAddr {
@@ -551,15 +551,19 @@ fn judge(v: &mut Verdict, res: Result<(), dr::ConfigError>, reference: Result<()
 }
 
 /// Which loopback servers does a cluster / sentinel pool contact?
-fn listeners(v: &mut Verdict, sentinel: bool, named: u8, via_urls: bool) {
+fn listeners(v: &mut Verdict, sentinel: bool, named: u16, via_urls: bool) {
+    const N: usize = 12;
     v.label(if sentinel { "listeners-sentinel" } else { "listeners-cluster" });
     v.nontrivial = true;
-    let named = if named & 0xf == 0 { 1 } else { named & 0xf };
+    let named = if named & 0xfff == 0 { 1 } else { named & 0xfff };
+    if named.count_ones() > 8 {
+        v.label("listeners:more-than-8-named");
+    }
     let rt = tokio::runtime::Builder::new_current_thread().enable_all().build().expect("runtime");
     let outcome: Result<(Vec<usize>, Vec<u16>), String> = rt.block_on(async move {
         let mut counts: Vec<Arc<AtomicUsize>> = vec![];
         let mut ports: Vec<u16> = vec![];
-        for _ in 0..4 {
+        for _ in 0..N {
             let l = tokio::net::TcpListener::bind("127.0.0.1:0").await.map_err(|e| e.to_string())?;
             ports.push(l.local_addr().map_err(|e| e.to_string())?.port());
             let c = Arc::new(AtomicUsize::new(0));
@@ -576,7 +580,7 @@ fn listeners(v: &mut Verdict, sentinel: bool, named: u8, via_urls: bool) {
                 }
             });
         }
-        let chosen: Vec<u16> = (0..4).filter(|i| named >> i & 1 == 1).map(|i| ports[i]).collect();
+        let chosen: Vec<u16> = (0..N).filter(|i| named >> i & 1 == 1).map(|i| ports[i]).collect();
         let urls: Vec<String> = chosen.iter().map(|p| format!("redis://127.0.0.1:{}/", p)).collect();
         let conns: Vec<dr::ConnectionInfo> = chosen
             .iter()
@@ -612,18 +616,18 @@ fn listeners(v: &mut Verdict, sentinel: bool, named: u8, via_urls: bool) {
     match outcome {
         Err(e) => v.label(&format!("listeners-skipped:{}", e.chars().take(40).collect::<String>())),
         Ok((counts, ports)) => {
-            for i in 0..4 {
+            for i in 0..N {
                 let is_named = named >> i & 1 == 1;
                 if !is_named && counts[i] > 0 {
                     v.fail(
                         "unnamed-server-contacted",
-                        format!("listener {} (port {}) was not named in the config but received {} connections (named mask {:04b}, counts {:?})", i, ports[i], counts[i], named, counts),
+                        format!("listener {} (port {}) was not named in the config but received {} connections (named mask {:012b}, counts {:?})", i, ports[i], counts[i], named, counts),
                     );
                 }
                 if is_named && counts[i] == 0 {
                     v.fail(
                         "named-server-not-contacted",
-                        format!("listener {} (port {}) was named in the config but never contacted (named mask {:04b}, counts {:?})", i, ports[i], named, counts),
+                        format!("listener {} (port {}) was named in the config but never contacted (named mask {:012b}, counts {:?})", i, ports[i], named, counts),
                     );
                 }
             }
@@ -747,7 +751,7 @@ fn poolcase(full: bool) -> BoxedStrategy<PoolCase> {
 
 pub fn case(listeners: bool) -> BoxedStrategy<RedisCase> {
     if listeners {
-        return (any::<bool>(), 1u8..16, any::<bool>())
+        return (any::<bool>(), prop_oneof![2 => 1u16..16, 1 => 1u16..4096, 1 => (any::<u16>(), any::<u16>()).prop_map(|(a, b)| 0xfff & (a | b | 0x100))], any::<bool>())
             .prop_map(|(sentinel, named, via_urls)| RedisCase::Listeners { sentinel, named, via_urls })
             .boxed();
     }
